@@ -68,11 +68,16 @@ type ContractDB struct {
 	Consts      map[string]string
 	Callers     map[string][]string
 	Unprotected []string
+	// Owner: "Type.field" -> key of the one top-level function whose goroutine writes the field
+	// (`owner Raft.snapshotting = Raft.snapshotLoop`): other goroutines only read it, so it is not
+	// havocked when the owner re-acquires the lock, and a write from any other function is a
+	// violation (<function>.single-writer).
+	Owner map[string]string
 	File        string
 	NLines      int
 }
 
-var topKeywords = map[string]bool{"sectguar": true, "ghost": true, "spec": true, "inv": true, "guar": true, "threadlocal": true, "func": true, "iface": true, "extern": true, "lemma": true, "callers": true, "unprotected": true}
+var topKeywords = map[string]bool{"sectguar": true, "ghost": true, "spec": true, "inv": true, "guar": true, "threadlocal": true, "func": true, "iface": true, "extern": true, "lemma": true, "callers": true, "unprotected": true, "owner": true}
 var clauseKeywords = map[string]bool{"requires": true, "ensures": true, "assume": true, "release": true, "at": true, "loop": true, "let": true, "val": true, "modifies": true, "flags": true}
 
 var labelRe = regexp.MustCompile(`^\[([^\]]+)\]\s*`)
@@ -105,7 +110,7 @@ func ParseContractFile(path string) (*ContractDB, error) {
 	if err != nil {
 		return nil, err
 	}
-	db := &ContractDB{Funcs: map[string]*FuncContract{}, Specs: map[string]*SpecFn{}, GhostByName: map[string]GhostVar{}, ThreadLocal: map[string]bool{}, Consts: map[string]string{}, Callers: map[string][]string{}, File: path}
+	db := &ContractDB{Funcs: map[string]*FuncContract{}, Specs: map[string]*SpecFn{}, GhostByName: map[string]GhostVar{}, ThreadLocal: map[string]bool{}, Consts: map[string]string{}, Callers: map[string][]string{}, Owner: map[string]string{}, File: path}
 	lines := strings.Split(string(data), "\n")
 	db.NLines = len(lines)
 	// gather logical items
@@ -153,6 +158,12 @@ func ParseContractFile(path string) (*ContractDB, error) {
 					return nil, fail(fmt.Errorf("callers: expected ="))
 				}
 				db.Callers[strings.TrimSpace(rest[:eq])] = strings.Fields(rest[eq+1:])
+			case "owner":
+				eq := strings.Index(rest, "=")
+				if eq < 0 {
+					return nil, fail(fmt.Errorf("owner: expected ="))
+				}
+				db.Owner[strings.TrimSpace(rest[:eq])] = strings.TrimSpace(rest[eq+1:])
 			case "unprotected":
 				db.Unprotected = append(db.Unprotected, strings.Fields(rest)...)
 			case "threadlocal":
